@@ -1,5 +1,96 @@
 import SuppModel.Drv.Util
+import SuppModel.Flow.Memo
+
 namespace SuppModel.Drv.Flow
-open Lean SuppModel.Drv
-def handle (_j : Json) : Json := errJson "driver for Flow not built yet"
+open Lean SuppModel.Flow SuppModel.Drv
+
+def posOf (j : Json) : Except String Pos := do
+  let a ← j.getArr?
+  if a.size ≠ 2 then throw "pos"
+  let l ← a[0]!.getNat?
+  let c ← a[1]!.getNat?
+  pure (l, c)
+
+def nameRecOf (j : Json) : Except String NameRec := do
+  let id ← jnat j "id"
+  let name ← jstr j "name"
+  let loc ← (j.getObjVal? "loc").bind posOf
+  let scope ← jnat j "scope"
+  pure { id, name, loc, scope }
+
+def parentOf (j : Json) : Except String Parent := do
+  let a ← j.getArr?
+  match a.toList with
+  | [Json.str "f", f] => do pure (.flow (← f.getNat?))
+  | [Json.str "l", l, t] => do pure (.loop (← l.getNat?) (← t.getNat?))
+  | _ => throw "parent"
+
+def flowOf (j : Json) : Except String FlowRec := do
+  let id ← jnat j "id"
+  let scope ← jnat j "scope"
+  let names ← (← jarr j "names").toList.mapM nameRecOf
+  let parents ← (← jarr j "parents").toList.mapM parentOf
+  pure { id, scope, names, parents }
+
+def kindOf : String → Except String ScopeKind
+  | "module" => pure .module | "func" => pure .func | "class" => pure .cls | "builtin" => pure .builtin
+  | _ => throw "scope kind"
+
+def scopeOf (j : Json) : Except String ScopeRec := do
+  let id ← jnat j "id"
+  let kind ← (jstr j "kind").bind kindOf
+  let parent := match j.getObjVal? "parent" with
+    | .ok (Json.num n) => some n.mantissa.toNat
+    | _ => none
+  let locals ← (← jarr j "locals").toList.mapM (·.getStr?)
+  let final ← jnat j "final"
+  let globals ← (← jarr j "globals").toList.mapM nameRecOf
+  pure { id, kind, parent, locals, final, globals }
+
+def graphOf (j : Json) : Except String Graph := do
+  let flows ← (← jarr j "flows").toList.mapM flowOf
+  let scopes ← (← jarr j "scopes").toList.mapM scopeOf
+  let builtins ← (← jarr j "builtins").toList.mapM (·.getStr?)
+  pure { flows, scopes, builtins }
+
+def queryOf (j : Json) : Except String Query := do
+  let flow ← jnat j "flow"
+  let pos ← (j.getObjVal? "pos").bind posOf
+  let key ← jstr j "key"
+  pure { flow, pos, key }
+
+def altJson : Alt → Json
+  | .undef n => Json.arr #[Json.str "undef", Json.str n]
+  | .rt n => Json.arr #[Json.str "rt", Json.str n]
+  | .nm i => Json.arr #[Json.str "nm", Json.num i]
+
+def answerJson : Option (Option Val) → Json
+  | none => Json.str "out-of-fuel"
+  | some none => Json.null
+  | some (some v) => Json.arr (v.map altJson).toArray
+
+def handle (j : Json) : Json :=
+  match jstr j "op" with
+  | .ok "eval" =>   -- the memoised evaluator on a history of queries, from a cold start
+    match (j.getObjVal? "graph").bind graphOf, (jarr j "queries").bind (·.toList.mapM queryOf) with
+    | .ok g, .ok qs => Json.mkObj [("answers", Json.arr ((runQueries g g.fuel {} qs).map answerJson).toArray)]
+    | .error e, _ => errJson e
+    | _, .error e => errJson e
+  | .ok "evalmany" =>   -- several histories over one graph: "orders" = lists of indices into "queries"
+    match (j.getObjVal? "graph").bind graphOf, (jarr j "queries").bind (·.toList.mapM queryOf),
+          (jarr j "orders").bind (·.toList.mapM (fun o => do let a ← o.getArr?; a.toList.mapM (·.getNat?))) with
+    | .ok g, .ok qs, .ok orders =>
+      let qa := qs.toArray
+      Json.mkObj [("answers", Json.arr (orders.map (fun o =>
+        Json.arr ((runQueries g g.fuel {} (o.filterMap (fun i => qa[i]?))).map answerJson).toArray)).toArray)]
+    | .error e, _, _ => errJson e
+    | _, .error e, _ => errJson e
+    | _, _, .error e => errJson e
+  | .ok "evalpure" =>   -- the pure evaluator, each query from scratch (exponential: small graphs only)
+    match (j.getObjVal? "graph").bind graphOf, (jarr j "queries").bind (·.toList.mapM queryOf) with
+    | .ok g, .ok qs => Json.mkObj [("answers", Json.arr ((qs.map (fun q => lookupAt g g.fuel q.flow q.pos q.key)).map answerJson).toArray)]
+    | .error e, _ => errJson e
+    | _, .error e => errJson e
+  | _ => errJson "unknown flow op"
+
 end SuppModel.Drv.Flow
